@@ -254,8 +254,19 @@ func (r *runner) serverCase1(sc *Server, in *Input, name string) {
 		www    base.HeaderValue
 		hasWWW bool
 		closed bool
+		// what the server expected / was asked when this request was made (replay steps change them)
+		expPass S
+		url     *base.URL // the server's view of the request URL
+		oldPass S
 	}
 	var recs []rec
+	var lastGood base.HeaderValue // Authorization header of the last request answered 200 on this connection
+	curPass := sc.Pass
+	defer func() {
+		ls.h.mu.Lock()
+		ls.h.pass = string(sc.Pass)
+		ls.h.mu.Unlock()
+	}()
 	var www base.HeaderValue // last challenge seen on this connection
 	method := base.Method(sc.ReqMethod)
 	for _, st := range sc.Steps {
@@ -274,7 +285,33 @@ func (r *runner) serverCase1(sc *Server, in *Input, name string) {
 			return rq.Header["Authorization"]
 		}
 		var authz base.HeaderValue
+		reqSU := su
+		oldPass := curPass
 		switch st.Kind {
+		case "replay-newpass", "replay-newpath":
+			// the Authorization header that was accepted before, verbatim, in a context it was not computed
+			// for: the application now expects another password / the request is for another URL
+			// (added after seeded change C10-r6-2: a per-connection cache of accepted headers)
+			if lastGood == nil {
+				continue
+			}
+			authz = lastGood
+			if st.Kind == "replay-newpass" {
+				curPass = st.Alt
+				ls.h.mu.Lock()
+				ls.h.pass = string(curPass)
+				ls.h.mu.Unlock()
+			} else {
+				u2, e2 := base.ParseURL("rtsp://" + ls.addr + "/zz" + sc.Path)
+				if e2 != nil {
+					continue
+				}
+				su2, e2 := base.ParseURL(u2.CloneWithoutCredentials().String())
+				if e2 != nil {
+					continue
+				}
+				req.URL, reqSU = u2, su2
+			}
 		case "nocred":
 		case "right":
 			authz = mk(string(sc.User), string(sc.Pass), www)
@@ -312,7 +349,10 @@ func (r *runner) serverCase1(sc *Server, in *Input, name string) {
 			}
 			break
 		}
-		rc := rec{step: st, authz: authz, status: int(res.StatusCode)}
+		rc := rec{step: st, authz: authz, status: int(res.StatusCode), expPass: curPass, url: reqSU, oldPass: oldPass}
+		if res.StatusCode == base.StatusOK && authz != nil {
+			lastGood = authz
+		}
 		if v, ok := res.Header["WWW-Authenticate"]; ok {
 			rc.www, rc.hasWWW = v, true
 			www = v
@@ -346,7 +386,7 @@ func (r *runner) serverCase1(sc *Server, in *Input, name string) {
 			w = listTok(rc.www)
 		}
 		cs.Ops = append(cs.Ops, fmt.Sprintf("auth creq %s %s %s %s %s %s %s %s", methodsTok(sc.Methods), fresh, hxs(sc.ReqMethod),
-			hxs(su.String()), hxs(su.RequestURI()), listTok(rc.authz), hx(sc.User), hx(sc.Pass)))
+			hxs(rc.url.String()), hxs(rc.url.RequestURI()), listTok(rc.authz), hx(sc.User), hx(rc.expPass)))
 		cs.Impl = append(cs.Impl, fmt.Sprintf("st %d www %s closed %s", rc.status, w, corr.B(rc.closed)))
 
 		// ---------------- property oracle ----------------
@@ -383,6 +423,16 @@ func (r *runner) serverCase1(sc *Server, in *Input, name string) {
 			}
 			if differs && wfUser && (rc.status != 401 || !rc.closed || rc.hasWWW) {
 				fail("wrong credentials end the connection", "auth-server-close", fmt.Sprintf("status %d challenge %v closed %v", rc.status, rc.hasWWW, rc.closed))
+			}
+		case "replay-newpass":
+			if rc.step.Alt != rc.oldPass && wfUser && (rc.status != 401 || !rc.closed) {
+				fail("credentials computed for another password are rejected (also when they were accepted before on this connection)", "auth-server-replay-newpass",
+					fmt.Sprintf("status %d closed %v", rc.status, rc.closed))
+			}
+		case "replay-newpath":
+			if schemeOf(rc.authz) != "basic" && wfUser && (rc.status != 401 || !rc.closed) {
+				fail("Digest credentials computed for another URL are rejected (also when they were accepted before on this connection)", "auth-server-replay-newpath",
+					fmt.Sprintf("status %d closed %v", rc.status, rc.closed))
 			}
 		case "basic-right":
 			enabled := false
@@ -569,6 +619,10 @@ func (g *gen) server() *Server {
 			st.Kind = "basic-right"
 		case k == 11:
 			st.Kind, st.Alt = "basic-wrong", S(g.wireText("", 16))
+		case k == 12 && i > 0:
+			st.Kind, st.Alt = "replay-newpass", S(strings.TrimSpace(string(g.differ(sc.Pass, "\r\n"))))
+		case k == 13 && i > 0:
+			st.Kind = "replay-newpath"
 		default:
 			st.Kind = "raw"
 			switch g.r.IntN(8) {
